@@ -377,6 +377,16 @@ def t_cond_misc(g, d):
     return g.rng.choice(forms)()
 
 
+def t_x_and_bit_eq_bit(g, d):
+    n = g.width()
+    s = g.width()
+    bit = ExprInt(1 << g.rng.randrange(n), n)
+    bit2 = bit if g.rng.random() < 0.8 else ExprInt(1 << g.rng.randrange(n), n)
+    k = g.rng.choice([1, 2])
+    c = ExprOp('==', ExprOp('&', *([g.expr(n, d) for _ in range(k)] + [bit])), bit2)
+    return ExprCond(c, g.expr(s, d), g.expr(s, d))
+
+
 def t_cc_flags(g, d):
     n = g.width()
     a, b = g.expr(n, d), g.expr(n, d)
@@ -662,7 +672,7 @@ TEMPLATES = [t_ext_cmp_cst, t_ext_cmp_cst, t_ext_eq_ext, t_compose0_eq_cst, t_ad
              t_cc_flags, t_subwc, t_flag_cst, t_sub_cf_zero, t_double_ext, t_ext_cond_int,
              t_slice_ext, t_slice_op_ext, t_slice_misc, t_slice_misc, t_compose_misc,
              t_compose_and_mask, t_shift_misc, t_shift_misc, t_add_multiple, t_arith_ident,
-             t_arith_ident, t_smod_sext, t_mem_cond, t_bcd]
+             t_arith_ident, t_smod_sext, t_mem_cond, t_bcd, t_x_and_bit_eq_bit]
 
 
 def shape(e):
